@@ -161,7 +161,11 @@ def generate(seed: int, run: int, tier: str) -> dict:
             evict = sorted(rng.sample(range(1, rng.choice([30, 120, 400])), rng.choice([1, 2, 3, 6]))) if rng.random() < p_evict else []
             if rng.random() < p_diff and _size(ast) <= 16:
                 var = "t" if has_t and rng.random() < 0.85 else ("s%d" % rng.randrange(ns) if ns else "t")
-                ops.append({"op": "diff", "ast": ast, "var": var, "order": rng.choice([1, 1, 1, 2]) if _size(ast) <= 9 else 1, "via": rng.choice(["diff", "vector_diff"]), "evict": evict, "mode": rng.choice(["auto", "auto", "uneval"])})
+                dop = {"op": "diff", "ast": ast, "var": var, "order": rng.choice([1, 1, 1, 2]) if _size(ast) <= 9 else 1, "via": rng.choice(["diff", "vector_diff", "derivative_doit"]), "evict": evict, "mode": rng.choice(["auto", "auto", "uneval"])}
+                if ns and _size(ast) <= 9 and rng.random() < 0.2:
+                    # mixed partial derivative w.r.t. two different scalar parameters
+                    dop["vars"] = rng.choice([["t", "s0"], ["s0", "t"]])
+                ops.append(dop)
             else:
                 ops.append({"op": "build", "ast": ast, "mode": mode, "evict": evict})
     env = {"hashseed": rng.choice([0, 1, 7, 42]), "cache": rng.choice([1000, 1000, 1000, 25])}
@@ -823,6 +827,17 @@ def _needs_world(world: World, ast) -> None:
         _fresh(world, {"order": [], "vids": [], "assume": (world.assumes + ["none"] * acc["ns"])[:max(acc["ns"], len(world.assumes))], "fargs": (world.fargs + [["t"]] * acc["nf"])[:max(acc["nf"], len(world.fargs))]})
 
 
+def _diff_var_names(op: dict, world: World) -> list[str]:
+    if op.get("vars"):
+        return [v if v in world.scalars else "t" for v in op["vars"]]
+    v = op["var"] if op.get("var") in world.scalars else "t"
+    return [v] * int(op.get("order", 1))
+
+
+def _diff_vars(op: dict, world: World) -> list:
+    return [world.scalars[n] for n in _diff_var_names(op, world)]
+
+
 def child_run(job: dict) -> dict:
     import sympy as sp  # pylint: disable=import-outside-toplevel
     from sympy.core.cache import clear_cache  # pylint: disable=import-outside-toplevel
@@ -879,12 +894,13 @@ def child_run(job: dict) -> dict:
                         result = sp.sympify(raw).doit()
                 else:
                     expr = sp.sympify(_build(ast, world, False if op.get("mode") == "uneval" else None))
-                    var = world.scalars.get(op["var"]) or world.scalars["t"]
-                    order = int(op.get("order", 1))
+                    dvars = _diff_vars(op, world)
                     if op.get("via") == "vector_diff" and ast[0] in VECTOR_TAGS and expr != 0:
-                        result = vm.vector_diff(expr, *([var] * order))
+                        result = vm.vector_diff(expr, *dvars)
+                    elif op.get("via") == "derivative_doit" and ast[0] in VECTOR_TAGS and expr != 0:
+                        result = vm.VectorDerivative(expr, *dvars).doit()
                     else:
-                        result = expr.diff(var, order)
+                        result = expr.diff(*dvars)
             except OpTimeout:
                 err = ("wall", "")
             except StepBudget:
@@ -912,18 +928,17 @@ def child_run(job: dict) -> dict:
                     for point in (0, 1):
                         bind = Bindings(point, world.assumes, world.fargs)
                         domA = Domain("mp", bind)
-                        key = core.digest([kind, ast, op.get("var"), op.get("order"), point, world.assumes, world.fargs])
+                        key = core.digest([kind, ast, op.get("var"), op.get("order"), op.get("vars"), point, world.assumes, world.fargs])
                         if key not in ref_cache:
                             if kind == "build":
                                 ref_cache[key] = ref_eval(ast, domA)
                             else:
-                                vname = op["var"] if op["var"] in world.scalars else "t"
-                                domB = Domain("sym", bind, {vname})
+                                names = _diff_var_names(op, world)
+                                domB = Domain("sym", bind, set(names))
                                 sym = ref_eval(ast, domB)
-                                x = domB.var(vname)
-                                n = int(op.get("order", 1))
-                                dd = tuple(sp.diff(c, x, n) for c in sym) if isinstance(sym, tuple) else sp.diff(sym, x, n)
-                                ref_cache[key] = _lower(dd, domB, domA, {vname})
+                                xs = [domB.var(nm) for nm in names]
+                                dd = tuple(sp.diff(c, *xs) for c in sym) if isinstance(sym, tuple) else sp.diff(sym, *xs)
+                                ref_cache[key] = _lower(dd, domB, domA, set(names))
                         ref = ref_cache[key]
                         got = out_eval(result, domA, world)
                         if not _finite(ref, domA.mp):
@@ -1058,6 +1073,8 @@ def simplify(job: dict) -> list[dict]:
     if op["op"] == "diff":
         if op.get("order", 1) > 1:
             out.append(with_op(dict(op, order=1)))
+        if op.get("vars"):
+            out.append(with_op({k: v for k, v in op.items() if k != "vars"}))
         if op.get("via") != "diff":
             out.append(with_op(dict(op, via="diff")))
         if op.get("mode", "auto") != "auto":
